@@ -34,13 +34,14 @@ func (p pat) name() name.Name {
 }
 func (p pat) str() string { return sanct[p.S] + "/" + realm[p.R] + "/" + swamp[p.W] }
 func (p pat) coq() string {
-	return fmt.Sprintf("{| ps := %d; pr := %d; pw := %d |}", p.S, p.R, p.W)
+	return fmt.Sprintf("(P_ %d %d %d)", p.S, p.R, p.W)
 }
 func (p pat) matches(n pat) bool { // does pattern p match name n
 	return p.S == n.S && (p.R == 0 || p.R == n.R) && (p.W == 0 || p.W == n.W)
 }
 
 type event struct {
+	Restart           bool
 	Dereg             bool
 	P                 pat
 	InMem             bool
@@ -48,12 +49,18 @@ type event struct {
 }
 
 func (e event) coq() string {
+	if e.Restart {
+		return "Restart"
+	}
 	if e.Dereg {
 		return common.App("Dereg", e.P.coq())
 	}
 	return common.App("Reg", e.P.coq(), common.App("mk_sett", common.Bool(e.InMem), common.Z(e.Idle), common.Z(e.Wint), common.Z(e.MaxFs)))
 }
 func (e event) human() string {
+	if e.Restart {
+		return "restart (settings.New on the same root)"
+	}
 	if e.Dereg {
 		return "deregister " + e.P.str()
 	}
@@ -69,7 +76,7 @@ type obs struct {
 }
 
 func (o obs) coq() string {
-	return fmt.Sprintf("{| in_mem := %s; idle := %s; wint := %s; maxfs := %s |}", common.Bool(o.InMem), common.Z(o.Idle), common.Z(o.Wint), common.Z(o.MaxFs))
+	return fmt.Sprintf("(S_ %s %s %s %s)", common.Bool(o.InMem), common.Z(o.Idle), common.Z(o.Wint), common.Z(o.MaxFs))
 }
 func (o obs) human() string {
 	t := "persistent"
@@ -79,9 +86,18 @@ func (o obs) human() string {
 	return fmt.Sprintf("%s idle=%dns write=%dns maxfile=%d", t, o.Idle, o.Wint, o.MaxFs)
 }
 
+// name objects are reused across lookups in half of the calls (a caller may keep them)
+var namePool = map[pat]name.Name{}
+
 func observe(s settings.Settings, n pat, reps int) []obs {
 	seen := map[obs]bool{}
 	nm := n.name()
+	if reps%2 == 0 {
+		if namePool[n] == nil {
+			namePool[n] = n.name()
+		}
+		nm = namePool[n]
+	}
 	for i := 0; i < reps; i++ {
 		st := s.GetBySwampName(nm)
 		seen[obs{st.GetSwampType() == setting.InMemorySwamp, int64(st.GetCloseAfterIdle()), int64(st.GetWriteInterval()), st.GetMaxFileSizeByte()}] = true
@@ -117,7 +133,7 @@ func obsList(os []obs) string {
 func main() {
 	a := common.ParseArgs()
 	run := common.NewRun(a, "C21", "HV.Settings.Pattern")
-	run.Meta.Rule = "a case is a history of 1-9 RegisterPattern/DeregisterPattern calls (overlapping exact, realm-wildcard and swamp-wildcard patterns over 2 sanctuaries x 2 realms x 2 swamps, re-registrations with changed type/settings, deregistrations) on a real settings object, then 30 repeated GetBySwampName calls for each of 10 names, a restart (settings.New on the same root) and the queries again; non-trivial = at least one queried name is matched by two or more registered patterns"
+	run.Meta.Rule = "a case is a history of 1-9 RegisterPattern/DeregisterPattern calls and restarts (overlapping exact, realm-wildcard and swamp-wildcard patterns over 2 sanctuaries x 2 realms x 2 swamps, re-registrations with changed type/settings, deregistrations of live and of unknown patterns, settings.New on the same root in mid-history) on a real settings object, with GetBySwampName lookups (fresh and reused name objects) before, between and after the calls - each must answer from the registrations in force at that moment -, then 30 repeated lookups for each of 10 names, a restart and the lookups again; non-trivial = at least one queried name is matched by two or more registered patterns"
 	slog.SetDefault(slog.New(slog.NewTextHandler(io.Discard, nil)))
 	rng := common.NewRng(a.Seed, "C21")
 	ncases, reps := 300, 30
@@ -159,6 +175,24 @@ func main() {
 		return event{P: p, InMem: rng.Chance(45), Idle: idles[rng.Intn(len(idles))], Wint: wints[rng.Intn(len(wints))], MaxFs: sizes[rng.Intn(len(sizes))]}
 	}
 
+	queryTerm := func(n pat, before, after []obs, live map[pat]bool) (string, interface{}, int) {
+		k := 0
+		for p := range live {
+			if p.matches(n) {
+				k++
+			}
+		}
+		hb := []string{}
+		for _, o := range before {
+			hb = append(hb, o.human())
+		}
+		ha := []string{}
+		for _, o := range after {
+			ha = append(ha, o.human())
+		}
+		return fmt.Sprintf("Q_ %s %s %s", n.coq(), obsList(before), obsList(after)),
+			map[string]interface{}{"lookup": n.str(), "matching_registered_patterns": k, "distinct_answers": hb, "after_restart": ha}, k
+	}
 	for c := 0; c < ncases; c++ {
 		var evs []event
 		switch c {
@@ -166,11 +200,21 @@ func main() {
 			evs = []event{{P: pat{1, 0, 0}, InMem: true, Idle: 10}, {P: pat{1, 2, 0}, Idle: 10, Wint: 1, MaxFs: 65536}}
 		case 1: // the Coq witness reregistration_refuted
 			evs = []event{{P: pat{1, 0, 0}, InMem: true, Idle: 10}, {P: pat{1, 0, 0}, Idle: 10}}
+		case 2: // catch-all + more specific pattern, the specific one is deregistered again
+			evs = []event{{P: pat{1, 0, 0}, Idle: 60, Wint: 5, MaxFs: 65536}, {P: pat{1, 2, 0}, InMem: true, Idle: 2}, {Dereg: true, P: pat{1, 2, 0}}}
 		default:
 			n := 1 + rng.Intn(9)
 			var used []pat
 			for i := 0; i < n; i++ {
+				if i > 0 && rng.Chance(8) {
+					evs = append(evs, event{Restart: true})
+					continue
+				}
 				e := genEvent(used)
+				if !e.Dereg && len(used) > 0 && rng.Chance(12) {
+					// deregister something that is (or was) registered: lookups made before must not stick
+					e = event{Dereg: true, P: used[rng.Intn(len(used))]}
+				}
 				evs = append(evs, e)
 				used = append(used, e.P)
 			}
@@ -179,68 +223,86 @@ func main() {
 		os.MkdirAll(root, 0o755)
 		os.Setenv("HYDRAIDE_ROOT_PATH", root)
 		s := settings.New(2, 100)
-		for _, e := range evs {
-			apply(s, e)
-		}
-		before := make([][]obs, len(names))
-		for i, n := range names {
-			before[i] = observe(s, n, reps)
-		}
-		restart := c < 2 || rng.Chance(60)
-		after := make([][]obs, len(names))
-		if restart {
-			s2 := settings.New(2, 100)
-			for i, n := range names {
-				after[i] = observe(s2, n, 5)
-			}
-			run.Hist("with_restart")
-		}
-		os.RemoveAll(root)
-
-		// registered set (for the non-triviality rule and the histogram only)
 		live := map[pat]bool{}
-		for _, e := range evs {
-			if e.Dereg {
-				delete(live, e.P)
-			} else {
-				live[e.P] = true
+		maxOverlap := 0
+		midLookups := 0
+		var st []string
+		var sh []interface{}
+		// lookups before, between and after the events: each sees the registrations in force then
+		lookSome := func(prob int, reps int) {
+			for _, n := range names {
+				if !rng.Chance(prob) {
+					continue
+				}
+				t, h, k := queryTerm(n, observe(s, n, reps), nil, live)
+				st = append(st, t)
+				sh = append(sh, h)
+				if k > maxOverlap {
+					maxOverlap = k
+				}
+				midLookups++
 			}
 		}
-		maxOverlap := 0
-		var qt []string
-		var qh []interface{}
-		for i, n := range names {
-			k := 0
-			for p := range live {
-				if p.matches(n) {
-					k++
+		if rng.Chance(30) {
+			lookSome(30, 3) // nothing registered yet: the default
+		}
+		for _, e := range evs {
+			if e.Restart {
+				s = settings.New(2, 100)
+			} else {
+				apply(s, e)
+				if e.Dereg {
+					delete(live, e.P)
+				} else {
+					live[e.P] = true
 				}
 			}
+			st = append(st, "HEv "+e.coq())
+			sh = append(sh, e.human())
+			switch {
+			case c < 3:
+				lookSome(100, 4)
+			case e.Dereg:
+				lookSome(60, 4)
+			default:
+				lookSome(25, 3)
+			}
+		}
+		restart := c < 3 || rng.Chance(60)
+		for _, n := range names {
+			before := observe(s, n, reps)
+			var after []obs
+			if restart {
+				after = observe(settings.New(2, 100), n, 5)
+			}
+			t, h, k := queryTerm(n, before, after, live)
+			st = append(st, t)
+			sh = append(sh, h)
 			if k > maxOverlap {
 				maxOverlap = k
 			}
-			qt = append(qt, fmt.Sprintf("{| q_name := %s; q_before := %s; q_after := %s |}", n.coq(), obsList(before[i]), obsList(after[i])))
-			hb := []string{}
-			for _, o := range before[i] {
-				hb = append(hb, o.human())
-			}
-			ha := []string{}
-			for _, o := range after[i] {
-				ha = append(ha, o.human())
-			}
-			qh = append(qh, map[string]interface{}{"name": n.str(), "matching_registered_patterns": k, "distinct_answers": hb, "after_restart": ha})
 		}
-		et := make([]string, len(evs))
-		eh := make([]string, len(evs))
-		for i, e := range evs {
-			et[i] = e.coq()
-			eh[i] = e.human()
+		if restart {
+			run.Hist("with_final_restart")
 		}
-		run.Add(fmt.Sprintf("{| c_events := %s; c_queries := %s |}", common.List(et), common.List(qt)),
-			map[string]interface{}{"history": eh, "queries": qh, "calls_per_name": reps}, maxOverlap >= 2)
+		os.RemoveAll(root)
+		nDereg, nRestart := 0, 0
+		for _, e := range evs {
+			if e.Dereg {
+				nDereg++
+			}
+			if e.Restart {
+				nRestart++
+			}
+		}
+		run.Add(fmt.Sprintf("{| c_steps := %s |}", common.List(st)),
+			map[string]interface{}{"history_with_lookups": sh, "calls_per_final_lookup": reps}, maxOverlap >= 2)
 		run.Hist(fmt.Sprintf("max_overlap_%d", maxOverlap))
 		run.Hist(fmt.Sprintf("events_%d", len(evs)))
-		run.HistN("queries", len(names))
+		run.HistN("lookups_inside_history", midLookups)
+		run.HistN("lookups_at_end", len(names))
+		run.HistN("deregistrations", nDereg)
+		run.HistN("mid_history_restarts", nRestart)
 	}
 	_ = strings.Join
 	run.Shard = (run.Meta.Evaluations + 7) / 8
